@@ -18,7 +18,7 @@ Open Scope N_scope.
 (** [utils::break_concat], [break_variable_arguments], [break_minus], [break_equal],
     [break_long_string]: each looks only at the first and the last character of the
     previous push. *)
-Inductive pred := PConcat | PVarargs | PMinus | PEqual | PLongString.
+Inductive pred := BConcat | BVarargs | BMinus | BEqual | BLongString.
 
 Record tables := {
   sp : N -> N -> bool;              (* should_break_with_space last next *)
@@ -144,11 +144,11 @@ Definition lookup (rows : list N) (a b : N) : bool :=
 Definition mk_tables (sp_rows concat varargs minus equal longstring : list N) : tables :=
   {| sp := lookup sp_rows;
      br := fun p => match p with
-                    | PConcat => lookup concat
-                    | PVarargs => lookup varargs
-                    | PMinus => lookup minus
-                    | PEqual => lookup equal
-                    | PLongString => lookup longstring
+                    | BConcat => lookup concat
+                    | BVarargs => lookup varargs
+                    | BMinus => lookup minus
+                    | BEqual => lookup equal
+                    | BLongString => lookup longstring
                     end |}.
 
 (** * the intended token sequence
